@@ -118,7 +118,8 @@ def _piece(nodes, r):
 def radial_derivs(func, points, center, nodes, nsamp=7):
     """Derivatives 0..3 along the ray through each point, from values only.
 
-    Returns (D, resid): D shape (4, M) and the relative residual of the cubic fit (self-check), plus half-widths.
+    Returns (D, resid, half, vmax): D shape (4, M), the absolute residual of the cubic fit (self-check), half-widths,
+    largest |value| on each ray stencil (conditioning of the differentiation).
     """
     r, u = unit_and_radius(points, center)
     lo, hi = _piece(np.asarray(nodes, dtype=float), r)
@@ -130,14 +131,14 @@ def radial_derivs(func, points, center, nodes, nsamp=7):
     vals = np.asarray(func(P.reshape(-1, 3)), dtype=float).reshape(len(r), nsamp)
     V = np.polynomial.chebyshev.chebvander(s, 3)
     coef, *_ = np.linalg.lstsq(V, vals.T, rcond=None)  # (4, M)
-    resid = np.abs(V @ coef - vals.T).max(axis=0) / (np.abs(vals).max(axis=1) + 1e-300)
+    resid = np.abs(V @ coef - vals.T).max(axis=0)  # absolute; the caller compares it with the size of the function
     x = (r - mid) / half
     D = np.zeros((4, len(r)))
     for j in range(len(r)):
         c = coef[:, j]
         for nu in range(4):
             D[nu, j] = np.polynomial.chebyshev.chebval(x[j], np.polynomial.chebyshev.chebder(c, nu) if nu else c) / half[j] ** nu
-    return D, resid, half
+    return D, resid, half, np.abs(vals).max(axis=1)
 
 
 def _dft_deriv(vals):
@@ -146,7 +147,7 @@ def _dft_deriv(vals):
     c = np.fft.rfft(vals, axis=1) / n
     m = np.arange(c.shape[1])
     w = np.where((m > 0) & (2 * m < n), 2.0, 0.0)
-    return -np.sum(w * m * c.imag, axis=1), np.abs(c[:, -1]) / (np.abs(c).max(axis=1) + 1e-300)
+    return -np.sum(w * m * c.imag, axis=1), np.abs(c[:, -1])  # second: absolute Nyquist amplitude (must be ~0)
 
 
 def angular_derivs(func, points, center, K):
@@ -161,12 +162,13 @@ def angular_derivs(func, points, center, K):
     P = np.asarray(center)[None, None, :] + r[:, None, None] * P
     v = np.asarray(func(P.reshape(-1, 3)), dtype=float).reshape(len(r), n)
     dth, ny1 = _dft_deriv(v)
+    vmax = np.abs(v).max(axis=1)
     ps = phi[:, None] + k[None, :]
     P = np.stack([np.sin(ps) * np.cos(theta)[:, None], np.sin(ps) * np.sin(theta)[:, None], np.cos(ps)], axis=2)
     P = np.asarray(center)[None, None, :] + r[:, None, None] * P
     v = np.asarray(func(P.reshape(-1, 3)), dtype=float).reshape(len(r), n)
     dph, ny2 = _dft_deriv(v)
-    return dth, dph, np.maximum(ny1, ny2)
+    return dth, dph, np.maximum(ny1, ny2), np.maximum(vmax, np.abs(v).max(axis=1))
 
 
 def fd_step(points, center, nodes):
@@ -176,9 +178,9 @@ def fd_step(points, center, nodes):
     i = np.clip(np.searchsorted(nodes, r), 1, len(nodes) - 1)
     gap = nodes[i] - nodes[i - 1]
     dnode = np.min(np.abs(r[:, None] - nodes[None, :]), axis=1)
-    h = np.minimum(2e-3 * r, 0.2 * dnode)
+    h = np.minimum(1e-3 * r, 0.2 * dnode)
     on_node = dnode < 1e-3 * gap
-    h = np.where(on_node, np.minimum(1e-4 * gap, 2e-3 * r), h)
+    h = np.where(on_node, np.minimum(1e-4 * gap, 1e-3 * r), h)
     return h, on_node
 
 
@@ -212,15 +214,15 @@ def self_test():
     pts = c + rng.normal(size=(12, 3)) * 1.5
     r, u = unit_and_radius(pts, c)
     Y = sph.ref_Y_cart(K, u[:, 0], u[:, 1], u[:, 2])
-    D, resid, _ = radial_derivs(F, pts, c, nodes)
+    D, resid, _, _ = radial_derivs(F, pts, c, nodes)
     worst = 0.0
     for nu in range(4):
         ex = np.einsum("kn,kn->n", np.array([s(r, nu) for s in spl]), Y)
         worst = max(worst, np.abs(D[nu] - ex).max() / (np.abs(ex).max() + 1.0))
-    if worst > 1e-8 or resid.max() > 1e-10:
+    if worst > 1e-8 or resid.max() > 1e-10 * (1 + np.abs(F(pts)).max()):
         raise RuntimeError(f"bandlimited_c09.radial_derivs self-test failed: {worst} {resid.max()}")
     # angular: compare with a 6th-order finite difference in the angles
-    dth, dph, ny = angular_derivs(F, pts, c, K)
+    dth, dph, ny, _ = angular_derivs(F, pts, c, K)
     theta = np.arctan2(u[:, 1], u[:, 0])
     phi = np.arccos(u[:, 2])
 
@@ -231,7 +233,7 @@ def self_test():
     fd = lambda f: (45 * (f(e) - f(-e)) - 9 * (f(2 * e) - f(-2 * e)) + (f(3 * e) - f(-3 * e))) / (60 * e)  # noqa: E731
     sc = 1.0 + np.abs(F(pts))  # extrapolated points have huge values; the FD reference is only relatively accurate
     w2 = max((np.abs(dth - fd(lambda d: at(theta + d, phi))) / sc).max(), (np.abs(dph - fd(lambda d: at(theta, phi + d))) / sc).max())
-    if w2 > 1e-8 or ny.max() > 1e-10:
+    if w2 > 1e-8 or ny.max() > 1e-10 * (1 + np.abs(F(pts)).max()):
         raise RuntimeError(f"bandlimited_c09.angular_derivs self-test failed: {w2} {ny.max()}")
     # gradient of an analytic function
     G = lambda p: np.exp(-0.5 * np.sum((p - c) ** 2, axis=1)) * (1 + p[:, 0] * p[:, 2])  # noqa: E731
